@@ -393,6 +393,55 @@ func expandLoopRender(ip *absint.Interp, b renderedByte, K int) ([]renderedByte,
 	return nil, false
 }
 
+// xbufSink treats the xbuf.B methods as sinks (they only append what they are given,
+// see xbuf.go) wherever the text they build is not what a rule looks at.
+func xbufSink(ip *absint.Interp, st *absint.State, f *ssa.Function, a []absint.Val) (absint.Val, bool) {
+	if f.Pkg != nil && strings.HasSuffix(f.Pkg.Pkg.Path(), "/xbuf") && f.Signature.Recv() != nil {
+		// the buffer grows by the number of bytes the method appends (what xbuf-meaning
+		// establishes); its contents are not modelled
+		if p, ok := a[0].(*absint.Ptr); ok && p.Obj != nil && len(f.Params) > 0 {
+			if pt, ok := f.Params[0].Type().Underlying().(*types.Pointer); ok {
+				if sl, ok := ip.Load(st, p, pt.Elem()).(*absint.Slice); ok && sl.Len != nil {
+					var add *absint.Int
+					k := func(n uint64) *absint.Int { return absint.NewConst(sl.Len.W, n, sl.Len.Signed) }
+					switch f.Name() {
+					case "C":
+						add = k(1)
+					case "X02":
+						add = k(2)
+					case "X04":
+						add = k(4)
+					case "X06":
+						add = k(6)
+					case "S":
+						if s, ok := a[1].(*absint.Str); ok && s.Known {
+							add = k(uint64(len(s.S)))
+						}
+					case "Sb":
+						if s, ok := a[1].(*absint.Slice); ok && s.Len != nil && s.Len.W == sl.Len.W {
+							add = s.Len
+						}
+					}
+					ns := *sl
+					ns.Nil = absint.TriF
+					if add != nil {
+						ns.Len = ip.Ops.Add(sl.Len, add)
+					} else {
+						ns.Len = absint.NewTopInt(ip.In, sl.Len.W, sl.Len.Signed, "xbuf-len")
+					}
+					ns.Cap = ip.Ops.Join(sl.Cap, ns.Len)
+					ip.Store(st, p, pt.Elem(), &ns)
+				}
+			}
+		}
+		if f.Signature.Results().Len() == 1 && len(a) > 0 {
+			return a[0], true
+		}
+		return nil, true
+	}
+	return nil, false
+}
+
 func checkDbChunksInductive(ctx *Ctx, roles *EmitterRoles, lineS *types.Struct, fType, fAddr, fCount int, R *oblRecorder) {
 	fn := ctx.Prog.Method("asm", "Emitter", "EmitBytes")
 	if fn == nil {
@@ -402,6 +451,7 @@ func checkDbChunksInductive(ctx *Ctx, roles *EmitterRoles, lineS *types.Struct, 
 	pos := ctx.Prog.Pos(fn.Pos())
 	ip := absint.New()
 	ip.TraceStores = true
+	ip.Hooks.OverrideCall = xbufSink
 	var recv *absint.Ptr
 	S := roles.Struct
 	_, out := ip.CallFix(fn, func() ([]absint.Val, *absint.State) {
@@ -616,6 +666,7 @@ func dbBoundedTiling(ctx *Ctx, roles *EmitterRoles, lineS *types.Struct, fType, 
 		ip.UnrollLoops = true
 		forked := false
 		ip.Hooks.Branch = func(*absint.Interp, *absint.Bool, *ssa.If) { forked = true }
+		ip.Hooks.OverrideCall = xbufSink
 		// strings.Builder: only its length matters (and only where the code asks for it)
 		blen := map[string]int{}
 		known := map[string]bool{}
